@@ -80,9 +80,16 @@ def run_rt(prog, knobs, tape, emit, loopback=False, seed=7, driver=None):
     return finalize('ok')
 
 
-def run_nrt(prog, tape, emit, tail=0.0, seed=7, perturb=None):
+def run_nrt(prog, tape, emit, tail=0.0, seed=7, perturb=None, prior=None):
     w = world.NrtWorld(seed=seed).boot()
     main = w.main
+    if prior is not None:
+        # earlier use of the library in this process: another program is
+        # rendered, then everything is reset
+        it0 = rprog.Interp(prior, main, 'nrt', target=('127.0.0.1', 57110))
+        it0.start_root()
+        main.process(tail + 1.5)
+        main.reset()
     it = rprog.Interp(prog, main, 'nrt', target=('127.0.0.1', 57110))
     if perturb:
         import sc3.base.builtins as bi
